@@ -3,9 +3,9 @@
     [M] is the const-generic modulus; a [Modular<M>] value is its field [v].  Every model function
     returns [option]; [Some z] means: no cast/arithmetic step left its Rust type (no debug-build
     panic, no release-build wrap) and the value is [z]. *)
-From Coq Require Import ZArith.
+From Coq Require Import ZArith String.
 From RlibV Require Import Common.Iter C06.Fixed C06.Model
-  C06.ProofsRing C06.ProofsPow C06.ProofsInv C06.ProofsMisc.
+  C06.Corr C06.ProofsRing C06.ProofsPow C06.ProofsInv C06.ProofsMisc C06.ProofsIO C06.ProofsSpec.
 Open Scope Z_scope.
 
 (** construction from any i64 (incl. MIN/MAX) gives the canonical representative *)
@@ -34,6 +34,11 @@ Theorem c06_pow : forall M x d : Z, 2 <= M < 2 ^ 31 -> 0 <= x < M -> 0 <= d < 2 
   pow M x d = Some ((x ^ d) mod M).
 Proof. exact pow_correct. Qed.
 
+(** ... within 64 iterations (fuel 65 = 64 iterations and the exit test) *)
+Theorem c06_pow_64 : forall M x d : Z, 2 <= M < 2 ^ 31 -> 0 <= x < M -> 0 <= d < 2 ^ 64 ->
+  pow_loop M 65 x d = inr (Some ((x ^ d) mod M)).
+Proof. exact pow_loop_65. Qed.
+
 (** whatever the fuel, no i32 operation inside the loop of [inv] leaves i32
     ([inr None] is the outcome of a failed checked operation) *)
 Theorem c06_inv_no_overflow : forall M : Z, 2 <= M < 2 ^ 31 -> forall v : Z, 0 <= v < M ->
@@ -45,6 +50,11 @@ Theorem c06_inv_terminates : forall M : Z, 2 <= M < 2 ^ 31 -> forall v : Z, 0 <=
   forall fuel : positive, v < Zpos fuel ->
   exists x, inv_loop M fuel v = inr (Some x) /\ Z.abs x <= M /\ (x * v) mod M = Z.gcd v M mod M.
 Proof. exact inv_loop_terminates. Qed.
+
+(** at most 64 iterations: the product a*b at least halves per iteration *)
+Theorem c06_inv_terminates_64 : forall M : Z, 2 <= M < 2 ^ 31 -> forall v : Z, 0 <= v < M ->
+  exists x, inv_loop M 64 v = inr (Some x) /\ Z.abs x <= M /\ (x * v) mod M = Z.gcd v M mod M.
+Proof. exact inv_loop_terminates_64. Qed.
 
 (** for every residue (unit or not) [inv] returns a canonical r with r * v = gcd(v, M) mod M *)
 Theorem c06_inv_gcd : forall M : Z, 2 <= M < 2 ^ 31 -> forall v : Z, 0 <= v < M ->
@@ -72,3 +82,37 @@ Theorem c06_bound_needed_refuted_at_2_31 :
   (exists v, - 2 ^ 63 <= v < 2 ^ 63 /\ new (2 ^ 31) v <> Some (v mod 2 ^ 31)) /\
   (exists v, 0 <= v < 2 ^ 31 /\ Z.gcd v (2 ^ 31) = 1 /\ inv_loop (2 ^ 31) big_fuel v = inr None).
 Proof. exact bound_needed_2_31. Qed.
+
+(** Readable: new applied to the parsed i64 *)
+Theorem c06_read : forall M : Z, 2 <= M < 2 ^ 31 -> forall v : Z, - 2 ^ 63 <= v < 2 ^ 63 ->
+  read M v = Some (v mod M).
+Proof. exact new_correct. Qed.
+
+(** Display/Debug/Writable: the digit loop stays inside its 10-byte buffer for every u32 and the
+    text denotes the representative, so printing is canonical (equal text <-> equal value) *)
+Theorem c06_write : forall v : Z, 0 <= v < 2 ^ 32 -> exists s, render v = Some s /\ sval s = v.
+Proof. exact render_correct. Qed.
+
+Theorem c06_write_canonical : forall (x y : Z) (s : string), 0 <= x < 2 ^ 32 -> 0 <= y < 2 ^ 32 ->
+  render x = Some s -> render y = Some s -> x = y.
+Proof. exact render_injective. Qed.
+
+(** every correspondence case on which the implementation equals the model satisfies the numeric
+    specification used by spec_check (range, ring equations, inverse/division equations) by proof *)
+Theorem c06_model_implies_spec : forall c : case, model_check c = true -> spec_num c = true.
+Proof. exact model_implies_spec. Qed.
+
+(** ... and also the textual specification (the three renderings are the canonical decimal numeral
+    of inner()): everything in spec_check except the cross-check against the standard library's printer *)
+Theorem c06_model_implies_spec_strict : forall c : case, model_check c = true -> spec_strict c = true.
+Proof. exact model_implies_strict. Qed.
+
+(** the digit loop produces the canonical numeral: digits only, no leading zero, value v *)
+Theorem c06_write_canonical_numeral : forall v : Z, 0 <= v < 2 ^ 32 ->
+  exists s, render v = Some s /\ canon_dec v s = true.
+Proof. exact render_canonical. Qed.
+
+(** why 2 <= M: for M = 1 the constant ONE is outside [0, M) and pow returns it *)
+Theorem c06_lower_bound_needed_refuted_at_1 :
+  exists x d r, 0 <= x < 1 /\ 0 <= d < 2 ^ 64 /\ pow 1 x d = Some r /\ ~ (0 <= r < 1).
+Proof. exact lower_bound_needed_1. Qed.
